@@ -24,6 +24,7 @@ EXPLANATION = (
 EXPLANATION += ' R19.13 also requires the elif test to compare the positions of the two ifs.  R19.14: the overlap test runs over matches in source order.'
 EXPLANATION += ' R19.13: an elif clause is not offered to the statement matcher.'
 EXPLANATION += ' R19.12: a function that remembers its answer under a key reads, in the computation of the remembered value, nothing of its parameters that the key does not contain (followed into the helpers it calls).'
+EXPLANATION += " R19.15: in the anchored modules and the shared text utilities no source text is cut with str.splitlines() (it breaks at form feed, \x1c-\x1e, \x85, U+2028/9; rope's and the ast's line numbers count \n only)."
 ASSUMPTIONS = ["node.region is exact (rests on C08)"]
 
 
@@ -149,6 +150,9 @@ def check(ctx, res) -> None:
     memo_key_rule(ctx, res, "R19.12", ("rope.refactor.similarfinder", "rope.refactor.restructure", "rope.refactor.wildcards"))
     _elif_clause_rule(ctx, res)
     _source_order_rule(ctx, res)
+    from .common import line_model_rule as _lm
+
+    _lm(ctx, res, "R19.15", ('rope.refactor.similarfinder', 'rope.refactor.restructure', 'rope.refactor.wildcards', 'rope.refactor.patchedast'))
 
 
 def _check_main(ctx, res) -> None:
